@@ -220,6 +220,15 @@ func buildCases(thorough bool) []crashCase {
 			addCase(st, sp.name, sp.b, "")
 		}
 	}
+	// the same well-formed message two and three times in a row (handlers that count or refuse
+	// repetitions): the connection may be closed, but the node's run must come back
+	for _, st := range []string{"connect", "handshake", "ready-tx"} {
+		for _, l := range []string{"protoconf", "version", "verack", "ping", "getaddr", "reject", "headers[block1]", "inv[tx0]", "tx[tx0]"} {
+			b := netsim.Letters[l]
+			addCase(st, l+"/twice", append(append([]byte{}, b...), b...), "")
+			addCase(st, l+"/three-times", append(append(append([]byte{}, b...), b...), b...), "ping")
+		}
+	}
 	// messages that stay incomplete (five bytes short) while the node is shut down by its owner
 	for _, st := range []string{"ready-tx", "ready-block"} {
 		for _, l := range []string{"tx[tx0]", "extmsg/tx[tx0]", "block[block1]", "extmsg/block[block1]", "headers[block1,block2]", "addr[1]", "inv[tx0]"} {
